@@ -209,7 +209,7 @@ fn eval(w: &mut World, p: &P13, rec: &mut Rec) -> bool {
         P13::SsSwap { amp, tokens_milli, offer_milli, rev, fees } => {
             // the same economic pool in several decimals; decision vectors over the tolerance ladder
             let ladder: Vec<Option<u128>> = vec![Some(0), Some(E18 / 1000), None, Some(E18 / 20), Some(E18 / 2), Some(E18)];
-            let decsets: Vec<Vec<u8>> = vec![vec![6, 6], vec![6, 18], vec![18, 6], vec![18, 18]];
+            let decsets: Vec<Vec<u8>> = if tokens_milli.len() == 2 { vec![vec![6, 6], vec![6, 18], vec![18, 6], vec![18, 18]] } else { vec![vec![6, 6, 6], vec![6, 6, 18], vec![6, 18, 6], vec![18, 18, 6], vec![18, 18, 18]] };
             let mut ref_dec: Option<(Vec<bool>, Vec<Option<(u128, u128)>>)> = None;
             for decs in &decsets {
                 let res: Vec<u128> = tokens_milli.iter().zip(decs).map(|(t, d)| t * 10u128.pow(*d as u32 - 3)).collect();
@@ -398,6 +398,15 @@ pub fn points(tier: Tier) -> Vec<P13> {
                             v.push(P13::SsSwap { amp: *amp, tokens_milli: toks.clone(), offer_milli: off, rev, fees: f.clone() });
                         }
                     }
+                }
+            }
+            // three-asset pools: the traded pair keeps fewer decimals than a third asset
+            let mut t3 = toks.clone();
+            t3.push(toks[0]);
+            for frac in tier.pick(vec![10u128, 900], vec![1u128, 10, 100, 500, 900]) {
+                for rev in [false, true] {
+                    let oi = if rev { 1 } else { 0 };
+                    v.push(P13::SsSwap { amp: *amp, tokens_milli: t3.clone(), offer_milli: t3[oi] * frac / 1000, rev, fees: feesets[0].clone() });
                 }
             }
             for decs in [vec![6u8, 6], vec![6, 18]] {
